@@ -34,6 +34,9 @@ ASSUMPTIONS = ['abscissae and grids are lattice points of [-1,1] (dyadic plus +-
                'columns with condition number <= 1e4; tolerance 1e-13*cond^2*(1+|c|)+1e-10',
                'trace sets: explicit xmin/xmax (including 0, 0.0 and negative limits, one or both given) always enclose the data strictly; '
                'a trace set built with explicit limits must report exactly those limits',
+               'array layouts: the same values are passed Fortran-ordered, as a transposed view, strided, big-endian, read-only and as float32 '
+               '(float32: tolerance 64*6e-8*cond^2 + 1e-5 and only fits with cond <= 30 are compared with the oracle); inputans also as int64; '
+               'Python lists are not required for x/y/ia/inputans (every one of them is used through ndarray attributes)',
                'trace sets: float64 positions, xmax > xmin; rejection thresholds are not set so the fit is a single weighted least-squares fit; '
                'the normalisation model is x -> 2(x + jfrac*xjumpval - xmid)/(xmax - xmin) as documented',
                'default grid: exactly xmin..xmax for integral xmax-xmin; for a non-integral range only "starts at xmin, unit steps, '
@@ -163,6 +166,35 @@ def make_x_arg(form, xs):
     raise KeyError(form)
 
 
+LAYOUTS_2D = ('F', 'T', 'strided', 'be', 'f32', 'ro')
+LAYOUTS_1D = ('strided', 'be', 'f32', 'ro')
+INTANS = [2, -1, 3, 2, -1, 3]
+
+
+def lay(a, layout):
+    """The same values in another memory layout / representation."""
+    a = np.asarray(a)
+    if layout == 'C':
+        return np.ascontiguousarray(a).copy()
+    if layout == 'F':                      # Fortran-ordered owner
+        return np.asfortranarray(a).copy(order='F')
+    if layout == 'T':                      # transposed view of an [nx, nTrace] C array
+        return np.ascontiguousarray(a.T).T
+    if layout == 'strided':                # every second element of a wider buffer
+        big = np.full(a.shape[:-1] + (2 * a.shape[-1],), -777, dtype=a.dtype)
+        big[..., ::2] = a
+        return big[..., ::2]
+    if layout == 'be':                     # big-endian, as read from a FITS file
+        return a.astype(a.dtype.newbyteorder('>')) if a.dtype.kind == 'f' else a.copy()
+    if layout == 'f32':
+        return a.astype(np.float32) if a.dtype.kind == 'f' else a.copy()
+    if layout == 'ro':
+        b = a.copy()
+        b.flags.writeable = False
+        return b
+    raise KeyError(layout)
+
+
 def make_y(ykind, B, n):
     if ykind == 'combo':
         return B.dot(np.array(COMBO[:B.shape[1]]))
@@ -285,14 +317,20 @@ def check_basis(case):
 def check_fit(case):
     from pydl.pydlutils.trace import func_fit
     func, nc = case['func'], case['nc']
-    x = np.array(case['x'], dtype=float)
+    layout = case.get('layout', 'C')
+    f32 = layout == 'f32'
+    xl = lay(np.array(case['x'], dtype=float), layout)
+    x = np.asarray(xl, dtype=np.float64)              # the values actually passed (float32-rounded for 'f32')
     n = len(x)
-    w = np.array(case['w'], dtype=float)
+    wl = lay(np.array(case['w'], dtype=float), layout)
+    w = np.asarray(wl, dtype=np.float64)
     B = ref_basis(func, x, nc)
-    y = make_y(case['ykind'], B, n)
+    yl = lay(make_y(case['ykind'], B, n), layout)
+    y = np.asarray(yl, dtype=np.float64)
     ia = case['ia']
     free = [k for k in range(nc) if ia is None or ia[k]]
     ans_given = case['ans']
+    ansdtype = case.get('ansdtype', 'float')
     ans = np.array(ans_given if ans_given is not None else [0.0] * nc, dtype=float)
     ngood = int((w > 0).sum())
     trigs = []
@@ -300,23 +338,33 @@ def check_fit(case):
         trigs.append('ngood=1')
     if not free:
         trigs.append('all-fixed')
+    if ansdtype == 'int' and ans_given is not None:
+        trigs.append('int-inputans')
+    if layout != 'C':
+        trigs.append('layout=' + layout)
     trig = ','.join(trigs)
     tsuf = (':' + trig) if trig else ''
     exp, cond = ref_wls(B, y, w, free, ans)
     if cond > 1e4:
         return None, 'skip:ill-conditioned:' + func
-    tol = 1e-13 * cond * cond * (1.0 + float(np.abs(exp).max())) + 1e-10
+    if f32 and cond > 30:
+        return None, 'skip:float32-ill-conditioned'
+    if f32:
+        tol = (64 * 6e-8 * cond * cond + 1e-5) * (1.0 + float(np.abs(exp).max()) + float(np.abs(y).max()))
+    else:
+        tol = 1e-13 * cond * cond * (1.0 + float(np.abs(exp).max())) + 1e-10
 
     def call(yy):
-        kw = {'invvar': w.copy(), 'function_name': func}
+        kw = {'invvar': wl, 'function_name': func}
         if ia is not None:
             kw['ia'] = np.array(ia, dtype=bool)
         if ans_given is not None:
-            kw['inputans'] = np.array(ans_given, dtype=float)
-        return func_fit(x.copy(), yy.copy(), nc, **kw)
+            kw['inputans'] = np.array(ans_given, dtype=np.int64 if ansdtype == 'int' else (np.float32 if f32 else np.float64))
+        return func_fit(xl, yy, nc, **kw)
     bad = []
+    keep = (x.copy(), y.copy(), w.copy())
     try:
-        res, yfit = call(y)
+        res, yfit = call(yl)
     except Exception as e:
         return [(_exc_sig('func_fit', e, trig), repr(e))], 'exc'
     res = np.asarray(res, dtype=float)
@@ -338,30 +386,49 @@ def check_fit(case):
     if ngood < n:
         y2 = y.copy()
         y2[w <= 0] += 1000.0 * (1 + np.arange(n)[w <= 0])
+        rt = 1e-6 if f32 else 1e-12
         try:
-            res2, yfit2 = call(y2)
-            if not (np.all(np.abs(np.asarray(res2) - res) <= 1e-12 * (1 + np.abs(res))) and
-                    np.all(np.abs(np.asarray(yfit2) - yfit) <= 1e-12 * (1 + np.abs(yfit)))):
+            res2, yfit2 = call(lay(y2, layout))
+            if not (np.all(np.abs(np.asarray(res2) - res) <= rt * (1 + np.abs(res))) and
+                    np.all(np.abs(np.asarray(yfit2) - yfit) <= rt * (1 + np.abs(yfit)))):
                 bad.append(('func_fit:zero-weight-point-has-influence' + tsuf, 'y changed at w=0 points: %s -> %s' % (res.tolist(), np.asarray(res2).tolist())))
         except Exception as e:
             bad.append((_exc_sig('func_fit', e, trig), repr(e)))
-    label = 'ok:fit:%s:free%d%s' % (func, len(free), ':zw' if ngood < n else '')
+    label = 'ok:fit:%s:free%d%s%s%s' % (func, len(free), ':zw' if ngood < n else '', ':intans' if 'int-inputans' in trigs else '',
+                                      (':' + layout) if layout != 'C' else '')
     return bad, label
 
 
 def check_trace(case):
     from pydl.pydlutils.trace import xy2traceset, traceset2xy
     func, nc = case['func'], case['nc']
+    layout = case.get('layout', 'C')
+    where = case.get('where', 'fit+eval')
+    f32 = layout == 'f32'
     xpos, ypos, w, kw, xmin, xmax = trace_inputs(case)
+    flay = layout if where == 'fit+eval' else 'C'       # layout of the arrays given to the fit
+    xfit, yfit_in = lay(xpos, flay), lay(ypos, flay)
+    for k in ('invvar', 'inmask'):
+        if k in kw:
+            kw[k] = lay(kw[k], flay)
+    xeval = lay(xpos, layout)                            # layout of the positions given to the evaluation
+    if f32:
+        # values as actually passed; the limits follow the rounded positions when they are implicit
+        xpos = np.asarray(xfit if flay == 'f32' else xpos, dtype=np.float64)
+        ypos = np.asarray(yfit_in, dtype=np.float64)
+        if 'xmin' not in kw:
+            xmin = float(xpos.min())
+        if 'xmax' not in kw:
+            xmax = float(xpos.max())
     jump = case['jump']
-    jt = 'jump' if jump is not None else 'nojump'
+    jt = ('jump' if jump is not None else 'nojump') + ((':layout=' + layout) if layout != 'C' else '')
     bad = []
-    keep = (xpos.copy(), ypos.copy())
     try:
-        tset = xy2traceset(xpos, ypos, func=func, ncoeff=nc, **kw)
+        tset = xy2traceset(xfit, yfit_in, func=func, ncoeff=nc, **kw)
     except Exception as e:
         return [(_exc_sig('xy2traceset', e, jt), repr(e))], 'exc'
     scale = 1.0 + float(np.abs(ypos).max())
+    rtol = 1e-5 if f32 else 1e-9
     # (0) explicit limits are the limits of the trace set
     for nm, want in (('xmin', kw.get('xmin')), ('xmax', kw.get('xmax'))):
         if want is not None:
@@ -374,42 +441,45 @@ def check_trace(case):
                             'requested %s=%r, trace set has %r' % (nm, want, have)))
     # (a) evaluating at the same positions returns the fitted values, through both entry points
     try:
-        outs = [traceset2xy(tset, xpos.copy()), tset.xy(xpos.copy())]
+        outs = [traceset2xy(tset, xeval), tset.xy(xeval)]
         if jump is None:
-            outs.append(traceset2xy(tset, xpos.copy(), ignore_jump=True))
+            outs.append(traceset2xy(tset, xeval, ignore_jump=True))
     except Exception as e:
         return [(_exc_sig('traceset2xy', e, jt), repr(e))], 'exc'
+    fitted = np.asarray(tset.yfit, dtype=np.float64)
+    xeval64 = np.asarray(xeval, dtype=np.float64)
     for xo, yo in outs:
-        if np.shape(yo) != ypos.shape or not np.all(np.abs(np.asarray(yo) - tset.yfit) <= 1e-9 * scale):
-            bad.append(('traceset2xy:differs-from-yfit:' + jt, 'max |diff| %r' % (float(np.abs(np.asarray(yo) - tset.yfit).max())
-                                                                                if np.shape(yo) == ypos.shape else np.shape(yo),)))
+        yo = np.asarray(yo, dtype=np.float64)
+        if yo.shape != ypos.shape or not np.all(np.abs(yo - fitted) <= rtol * scale):
+            bad.append(('traceset2xy:differs-from-yfit:' + jt, 'max |diff| %r' % (float(np.abs(yo - fitted).max())
+                                                                                if yo.shape == ypos.shape else yo.shape,)))
             break
-        if not np.array_equal(np.asarray(xo), keep[0]):
+        if np.shape(xo) != xeval64.shape or not np.array_equal(np.asarray(xo, dtype=np.float64), xeval64):
             bad.append(('traceset2xy:x-changed:' + jt, ''))
             break
     # (b) the fit is the weighted least-squares fit in the documented normalised coordinate
-    worst = 0.0
     for i in range(case['ntrace']):
         xn = ref_xnorm(xpos[i], xmin, xmax, jump)
         B = ref_basis(func, xn, nc)
         exp, cond = ref_wls(B, ypos[i], w[i], list(range(nc)), np.zeros(nc))
         if cond > 1e4:
             return None, 'skip:ill-conditioned'
-        tol = (1e-13 * cond * cond + 1e-10) * scale
-        worst = max(worst, cond)
-        got = np.asarray(tset.coeff)[i]
+        if f32 and cond > 30:
+            break                                       # float32 normal equations: nothing meaningful can be demanded
+        tol = ((64 * 6e-8 * cond * cond + 1e-5) if f32 else (1e-13 * cond * cond + 1e-10)) * scale
+        got = np.asarray(tset.coeff, dtype=np.float64)[i]
         if np.shape(tset.coeff) != (case['ntrace'], nc) or not np.all(np.abs(got - exp) <= tol):
             bad.append(('xy2traceset:coeff-not-wls:' + jt, 'trace %d got %s expected %s' % (i, np.asarray(got).tolist(), exp.tolist())))
             break
-        if not np.all(np.abs(np.asarray(tset.yfit)[i] - B.dot(exp)) <= tol * (1 + np.abs(B).sum(axis=1).max())):
+        if not np.all(np.abs(fitted[i] - B.dot(exp)) <= tol * (1 + np.abs(B).sum(axis=1).max())):
             bad.append(('xy2traceset:yfit-not-wls:' + jt, 'trace %d' % i))
             break
     # (c) default grid
-    bad += default_grid_check(tset, case['ntrace'], xmin, xmax, jt)
-    return bad, 'ok:trace:%s:%s:%s:%s' % (func, jt, case['range'], case['wkind'])
+    bad += default_grid_check(tset, case['ntrace'], xmin, xmax, jt, 1e-5 if f32 else 1e-9)
+    return bad, 'ok:trace:%s:%s:%s:%s%s' % (func, jt, case['range'], case['wkind'], (':' + where) if layout != 'C' else '')
 
 
-def default_grid_check(tset, nt, xmin, xmax, jt):
+def default_grid_check(tset, nt, xmin, xmax, jt, vtol=1e-9):
     bad = []
     try:
         xd, yd = tset.xy()
@@ -430,7 +500,7 @@ def default_grid_check(tset, nt, xmin, xmax, jt):
     else:
         # evaluating explicitly at the default grid gives the same values
         x2, y2 = tset.xy(xd.copy())
-        if not np.all(np.abs(np.asarray(y2) - np.asarray(yd)) <= 1e-9 * (1 + np.abs(np.asarray(yd)))):
+        if not np.all(np.abs(np.asarray(y2, dtype=np.float64) - np.asarray(yd, dtype=np.float64)) <= vtol * (1 + np.abs(np.asarray(yd, dtype=np.float64)))):
             bad.append(('traceset2xy:default-grid-values:' + jt, ''))
     return bad
 
@@ -487,6 +557,12 @@ def tasks(tier):
                 t.append({'f': 'trace', 'func': func, 'nc': nc, 'jk': jk, 'T': T})
     for func in TRACE_FUNCS:
         t.append({'f': 'tsfits', 'func': func, 'T': T})
+    for func in TRACE_FUNCS:
+        for layout in LAYOUTS_2D:
+            t.append({'f': 'tracelayout', 'func': func, 'layout': layout, 'T': T})
+    for func in FIT_FUNCS:
+        for layout in LAYOUTS_1D:
+            t.append({'f': 'fitlayout', 'func': func, 'layout': layout, 'T': T})
     # shard 0 (determinism probe) is basis/flegendre/m=1: small
     return t
 
@@ -551,10 +627,12 @@ def run_task(task):
                     w = [0.0 if i in zeros else WVALS[wk][i] for i in range(n)]
                     for ia in itertools.product((True, False), repeat=nc):
                         allfree = all(ia)
-                        for ans in ((None,) if allfree else (None, INPUTANS[:nc])):
+                        for ans in ((None,) if allfree else (None, INPUTANS[:nc], INTANS[:nc])):
                             for yk in ykinds:
                                 case = {'f': 'fit', 'func': func, 'x': x, 'nc': nc, 'w': w,
                                         'ia': None if (allfree and wk == 'unit') else list(ia), 'ans': ans, 'ykind': yk}
+                                if ans is not None and ans == INTANS[:nc]:
+                                    case['ansdtype'] = 'int'       # inputans passed as an int64 array
                                 _do(acc, case, nzero > 0 or not allfree or wk != 'unit')
     elif f == 'trace':
         func, nc, jk = task['func'], task['nc'], task['jk']
@@ -570,6 +648,40 @@ def run_task(task):
                             case = {'f': 'trace', 'func': func, 'nc': nc, 'ntrace': ntr, 'nx': nx, 'xkind': xkind,
                                     'range': rng, 'wkind': wkind, 'jump': jump}
                             _do(acc, case, nc >= 2)
+    elif f == 'fitlayout':
+        func, layout = task['func'], task['layout']
+        for g in (('u6',) if not T else ('u6', 'd7')):
+            x = GRIDS[g]
+            n = len(x)
+            for nc in range(1 if func != 'chebyshev_split' else 2, 4):
+                for nzero in range(0, n - nc + 1):
+                    for zeros in itertools.combinations(range(n), nzero):
+                        w = [0.0 if i in zeros else WVALS['varied'][i] for i in range(n)]
+                        for ia in itertools.product((True, False), repeat=nc):
+                            for ans in ((None,) if all(ia) else (INPUTANS[:nc], INTANS[:nc])):
+                                for yk in ('combo', 'bump'):
+                                    case = {'f': 'fit', 'func': func, 'x': x, 'nc': nc, 'w': w, 'ia': list(ia), 'ans': ans, 'ykind': yk,
+                                            'layout': layout}
+                                    if ans is not None and ans == INTANS[:nc]:
+                                        case['ansdtype'] = 'int'
+                                    _do(acc, case, True)
+    elif f == 'tracelayout':
+        func, layout = task['func'], task['layout']
+        for nc in ((2, 3) if not T else (1, 2, 3, 4)):
+            for jk in ((0, 1) if not T else (0, 1, 4)):
+                for ntr in (1, 2, 3):
+                    for nx in ((8,) if not T else (8, 12)):
+                        for xkind in ('pixel', 'offset', 'nonuni'):
+                            for rng in ('implicit', 'zero-lo'):
+                                jump = jump_menu(nx, jk)
+                                if jump is not None:
+                                    sh = range_mode(rng, nx)[0]
+                                    jump = [jump[0] + sh, jump[1] + sh, jump[2]]
+                                for wkind in ('ones', 'zeros', 'inmask'):
+                                    for where in ('fit+eval', 'eval-only'):
+                                        case = {'f': 'trace', 'func': func, 'nc': nc, 'ntrace': ntr, 'nx': nx, 'xkind': xkind, 'range': rng,
+                                                'wkind': wkind, 'jump': jump, 'layout': layout, 'where': where}
+                                        _do(acc, case, True)
     elif f == 'tsfits':
         func = task['func']
         ranges = [(0.0, 10.0), (0.0, 2047.0), (5.0, 12.0), (-3.0, 4.0), (0.0, 10.5), (2.25, 9.25), (0.0, 1.0)]
